@@ -111,3 +111,46 @@ var _ = digest.SpecHashSlot // spec functions used by the contracts below
 //@   ensures tags_ok: forall s uint16 :: bisyncSlotTagsBySlot[s] != "" ==> digest.SpecHashSlot("{" + bisyncSlotTagsBySlot[s] + "}") == s
 //@   loop 1:
 //@     invariant tags_ok: forall s uint16 :: bisyncSlotTagsBySlot[s] != "" ==> digest.SpecHashSlot("{" + bisyncSlotTagsBySlot[s] + "}") == s
+
+// ---- bidirectional replay: the frontier is rebuilt as the contiguous committed prefix (C14) ---
+//   startSeq  the sequence number the rebuild starts from (snapshot's, or 0)
+//@ func BisyncFrontierSnapshot.Clone
+//@   arith int
+//@   properties C14
+//@   modifies nothing
+//@   requires receiver: f != nil
+//@   ensures copy: result != nil && fresh(result) && result.UnitSeq == f.UnitSeq && result.Offset == f.Offset && result.MTime == f.MTime && result.RunID == f.RunID
+
+//@ pred committedSeq(records []*BisyncCommitRecord, s int64): exists i int :: 0 <= i && i < len(records) && records[i] != nil && records[i].UnitSeq == s
+//@ func RebuildBisyncFrontier
+//@   arith int
+//@   properties C14
+//@   replay checkpoint_RebuildBisyncFrontier
+//@   ghost var startSeq mathint = 0
+//@   ghost var startPinned bool = false
+//@   modifies heap, startSeq, startPinned
+//@   set startSeq = ite(startPinned, startSeq, nextSeq - 1) after store nextSeq
+//@   set startPinned = true after store nextSeq
+//@   ensures never_backwards: result1 == nil && result0 != nil && snapshot != nil ==> result0.UnitSeq >= old(snapshot.UnitSeq)
+//@   ensures unchanged_without_records: len(records) == 0 && snapshot != nil && result1 == nil ==> result0 != nil && result0.UnitSeq == old(snapshot.UnitSeq) && result0.Offset == old(snapshot.Offset)
+//@   ensures starts_at_snapshot: result1 == nil && result0 != nil && startPinned ==> (snapshot != nil ==> startSeq == old(snapshot.UnitSeq)) && (snapshot == nil ==> startSeq == 0)
+//@   ensures frontier_stops_at_first_missing_record: result1 == nil && result0 != nil && startPinned ==> !committedSeq(records, result0.UnitSeq + 1) || result0.UnitSeq + 1 <= 0
+//@   ensures no_gap_in_records_behind_frontier: result1 == nil && result0 != nil && startPinned ==> (forall s int64 :: startSeq < s && s <= result0.UnitSeq ==> committedSeq(records, s))
+//@   ensures stops_at_first_missing_seq [local]: result1 == nil && result0 != nil && startPinned ==> !haskey(seqMap, result0.UnitSeq + 1)
+//@   ensures contiguous_from_start [local]: result1 == nil && result0 != nil && startPinned ==> result0.UnitSeq >= startSeq && (forall s int64 :: startSeq < s && s <= result0.UnitSeq ==> haskey(seqMap, s))
+//@   ensures offset_of_frontier_record [local]: result1 == nil && result0 != nil && startPinned && result0.UnitSeq > startSeq ==> haskey(seqMap, result0.UnitSeq) && result0.Offset == seqMap[result0.UnitSeq].EndOffset
+//@   loop 1:
+//@     invariant entries_keyed_by_their_seq: rebuild != nil && seqMap != nil && !startPinned && (forall k int64 :: haskey(seqMap, k) ==> seqMap[k] != nil && seqMap[k].UnitSeq == k && k > 0)
+//@     invariant every_seen_record_is_indexed: forall i int :: 0 <= i && i <= rangeindex && records[i] != nil && records[i].UnitSeq > 0 ==> haskey(seqMap, records[i].UnitSeq)
+//@     invariant every_index_entry_is_a_record: forall k int64 :: haskey(seqMap, k) ==> committedSeq(records, k)
+//@   loop 2:
+//@     invariant every_record_is_indexed: forall i int :: 0 <= i && i < len(records) && records[i] != nil && records[i].UnitSeq > 0 ==> haskey(seqMap, records[i].UnitSeq)
+//@     invariant every_index_entry_is_a_record: forall k int64 :: haskey(seqMap, k) ==> committedSeq(records, k)
+//@     invariant objects: rebuild != nil && seqMap != nil
+//@     invariant start_pinned: startPinned
+//@     invariant next_is_frontier_plus_one: nextSeq == rebuild.UnitSeq + 1
+//@     invariant frontier_only_grows: rebuild.UnitSeq >= startSeq
+//@     invariant starts_at_snapshot: (snapshot != nil ==> startSeq == old(snapshot.UnitSeq)) && (snapshot == nil ==> startSeq == 0)
+//@     invariant closed_prefix: forall s int64 :: startSeq < s && s < nextSeq ==> haskey(seqMap, s)
+//@     invariant entries_keyed_by_their_seq: forall k int64 :: haskey(seqMap, k) ==> seqMap[k] != nil && seqMap[k].UnitSeq == k && k > 0
+//@     invariant offset_tracks: rebuild.UnitSeq > startSeq ==> haskey(seqMap, rebuild.UnitSeq) && rebuild.Offset == seqMap[rebuild.UnitSeq].EndOffset
